@@ -57,12 +57,12 @@ C14_FIELDS(amgcl::relaxation::gauss_seidel<B>::params)  { C14_VAL(serial) }
 C14_FIELDS(amgcl::relaxation::chebyshev<B>::params)     { C14_VAL(degree) C14_VAL(higher) C14_VAL(lower) C14_VAL(power_iters) C14_VAL(scale) }
 C14_FIELDS(amgcl::relaxation::detail::ilu_solve<B>::params)            { C14_VAL(serial) }
 C14_FIELDS(amgcl::relaxation::detail::ilu_solve<OtherBackend>::params) { C14_VAL(iters) C14_VAL(damping) }
-C14_FIELDS(amgcl::relaxation::ilu0<B>::params) { C14_VAL(damping) C14_CHILD(solve) }
+C14_FIELDS(amgcl::relaxation::ilu0<B>::params) { C14_VAL(damping) C14_CHILD(solve) C14_ACCEPTS(k) }   // ilup::params derives from ilu0::params and hands it the whole tree
 C14_FIELDS(amgcl::relaxation::iluk<B>::params) { C14_VAL(k) C14_VAL(damping) C14_CHILD(solve) }
 C14_FIELDS(amgcl::relaxation::ilup<B>::params) { C14_VAL(k) C14_VAL(damping) C14_CHILD(solve) }
 C14_FIELDS(amgcl::relaxation::ilut<B>::params) { C14_VAL(p) C14_VAL(tau) C14_VAL(damping) C14_CHILD(solve) }
 //--- coarsening -----------------------------------------------------------------
-C14_FIELDS(amgcl::coarsening::plain_aggregates::params)     { C14_VAL(eps_strong) }
+C14_FIELDS(amgcl::coarsening::plain_aggregates::params)     { C14_VAL(eps_strong) C14_ACCEPTS(block_size) }   // pointwise_aggregates::params derives from it
 C14_FIELDS(amgcl::coarsening::pointwise_aggregates::params) { C14_VAL(eps_strong) C14_VAL(block_size) }
 // near null-space vectors: cols (value), rows (size of the user array), B (pointer to rows x cols doubles, copied at import).
 // Not written back by params::get() by design (the pointer is gone after the copy; cols alone cannot be re-imported).
